@@ -1280,6 +1280,8 @@ class Interp:
             o = ctx.obj(recv)
             if o.kind in ('inst', 'excinst'):
                 if name in o.f:
+                    if 'trace_getattr' in ctx.hooks:
+                        ctx.event('getattr', recv.id, name)
                     return o.f[name]
                 if o.cls is not None:
                     q, fn = source.find_method(o.cls, name)
